@@ -317,7 +317,7 @@ def build_cases(ck, enc_names):
             add("U", ch)
         add("U", [bytes([x]) for x in a])
         add("A", [bytes([x]) for x in a])
-    nseq = 4000 if quick else 40000
+    nseq = 4000 if quick else 120000
     for i in range(nseq):
         b = gen_bytes(rng)
         for ch in two_way_splits(b):
@@ -344,6 +344,10 @@ def build_cases(ck, enc_names):
     if not quick:
         for b0 in range(256):
             cases.append(("X %02x 2" % b0, "X", [], None))
+        # four bytes: representative lead bytes x boundary second bytes x all third/fourth bytes
+        for b0 in (0xC0, 0xC1, 0xC2, 0xDF, 0xE0, 0xE1, 0xEC, 0xED, 0xEE, 0xEF, 0xF0, 0xF1, 0xF3, 0xF4, 0xF5, 0xFF):
+            for b1 in (0x00, 0x7F, 0x80, 0x8F, 0x90, 0x9F, 0xA0, 0xBF, 0xC0, 0xC2, 0xE0, 0xFF):
+                cases.append(("X %02x%02x 2" % (b0, b1), "X", [], None))
     for a in atoms:
         cases.append(("K " + a.hex(), "K", [a], None))
     B1 = [0x00, 0x7F, 0x80, 0x8F, 0x90, 0x9F, 0xA0, 0xBF, 0xC0, 0xFF]
@@ -354,7 +358,7 @@ def build_cases(ck, enc_names):
                 cases.append(("K %02x%02x%02x" % (b0, b1, b2), "K", [], None))
                 for b3 in B2:
                     cases.append(("K %02x%02x%02x%02x" % (b0, b1, b2, b3), "K", [], None))
-    for _ in range(2000 if quick else 100000):
+    for _ in range(2000 if quick else 400000):
         cases.append(("K " + gen_bytes(rng, rng.randint(1, 4)).hex(), "K", [], None))
     # ---- encoding_rs: every exported encoding
     for name in enc_names:
@@ -365,7 +369,7 @@ def build_cases(ck, enc_names):
             add("L", [b], name)
             for ch in two_way_splits(b)[1:-1]:
                 add("L", ch, name)
-        for _ in range(150 if quick else 1500):
+        for _ in range(150 if quick else 3000):
             b = gen_enc_bytes(rng)
             add("L", [b], name)
             if len(b) <= 6:
@@ -422,6 +426,14 @@ def drill_down(ck, impl, model, prefix_hex, n):
 
 def run(ck):
     proofs_ok = ck.coq_props(extra_targets=["Extract/ExtractDecode.vo"])
+    if proofs_ok and not ck.quick and not ck.replay:
+        # independent re-check of the compiled proofs with the standalone checker
+        from vcommon import sh, COQ
+        rc, out = sh("coqchk -silent -o -Q . HV HV.Props.C10", cwd=COQ, timeout=900)
+        ok = rc == 0 and "* Axioms: <none>" in out
+        ck.cov["coqchk"] = "ok, axioms: <none>" if ok else "FAILED"
+        if not ok:
+            ck.broken.append("coqchk HV.Props.C10: " + "\n".join(out.strip().splitlines()[-8:]))
     bindir = ck.cargo_build(["decode"])
     impl = os.path.join(bindir, "decode")
     if os.environ.get("C10_DECODE_BIN"):
@@ -558,7 +570,7 @@ def run(ck):
     if hard:
         ck.broken.append("decoder contract not observed on real encoding_rs: %s" % sorted(hard.items())[:6])
     ck.cov.update({
-        "evaluations": len(cases) + (0 if ck.quick else 256 * 65536) + 65793,
+        "evaluations": len(cases) + 65793 + (0 if ck.quick or ck.replay else (256 + 192) * 65536),
         "distinct_nontrivial": len(nontrivial),
         "rule": "cases through real code (+ model for U/A/K/X). non-trivial = UTF-8/parse case with >= 2 non-empty "
                 "chunks in which an incomplete sequence is carried over a chunk boundary and the result contains "
